@@ -100,7 +100,7 @@ func prepareDiffItems(metas []*DiffMeta, budget int64, opt ref.Options) []*Item 
 			if o.OutOfBudget {
 				st.Max = len(o.Answers)
 			}
-			st.StepBudget = 100*o.M.Steps + 200000
+			st.StepBudget = 2000*o.M.Steps + 200000
 			it.Meta, _ = json.Marshal(&m)
 			items[i] = it
 		}(i, d)
